@@ -837,6 +837,24 @@ class _AdaptiveStepRK(_RungeKuttaBase):
         if not hasattr(self, "_err_exp") or self._err_exp == 0:
             self._err_exp = 1.0 / (self._p)
 
+    def validate_inputs(self, system, y0, t_vals) -> None:
+        """Validate inputs; the adaptive drivers only march forward in time.
+
+        Raises
+        ------
+        ValueError
+            Additionally, if ``t_vals`` is strictly decreasing: the step loop
+            would not advance and the initial state would be returned at every
+            requested time. Backward propagation is obtained by wrapping the
+            system in :class:`~hiten.algorithms.dynamics.base._DirectedSystem`.
+        """
+        super().validate_inputs(system, y0, t_vals)
+        if t_vals[-1] < t_vals[0]:
+            raise ValueError(
+                "Adaptive Runge-Kutta integrators require an increasing time grid; "
+                "wrap the system in _DirectedSystem(fwd=-1) to integrate backward in time."
+            )
+
 
 @numba.njit(cache=False, fastmath=FASTMATH)
 def rk45_step_jit_kernel(f, t, y, h, A, B_HIGH, C, E):
